@@ -12,6 +12,7 @@ import (
 	"encoding/json"
 	"fmt"
 	"os"
+	"os/exec"
 	"path/filepath"
 	"runtime"
 	"sort"
@@ -366,6 +367,13 @@ func Main(chk *Check, tier string, seed int64, replayPath string) int {
 			chk.Property, sub.Name, st.Cases, st.Evals, st.Nontrivial, len(st.Outcomes), st.WallS, st.Exhaustive)
 	}
 
+	if os.Getenv("VERIF_CONFIRM") == "1" {
+		// child of a confirmation run: just list what was found, unconfirmed
+		for _, v := range classes {
+			fmt.Printf("CONFIRM sub=%s class=%s\n", v.Sub, v.Class)
+		}
+		return 0
+	}
 	// Classify, replay each witness 5x before believing it.
 	keys := make([]string, 0, len(classes))
 	for k := range classes {
@@ -472,6 +480,22 @@ func Main(chk *Check, tier string, seed int64, replayPath string) int {
 				}
 			}
 			for _, agg := range unconfirmed {
+				if !(again[0][agg.Sub] && again[1][agg.Sub]) && freshProcessConfirms(chk.Property, tier, agg) {
+					// state that is consumed once per process (a buffer that only grows, a lazily built table):
+					// the finding comes back in two fresh processes running the same sub-check
+					agg.History = true
+					agg.Msg = "[needs a fresh process: the state it depends on is consumed once per process; the class came back in 2 of 2 fresh runs of the sub-check] " + agg.Msg
+					violations++
+					path, err := writeReplay(chk.Property, agg)
+					if err != nil {
+						fmt.Fprintln(os.Stderr, "harness error:", err)
+						return 2
+					}
+					fmt.Printf("  violation class=%s sub=%s count=%d: %s\n", agg.Class, agg.Sub, agg.Count, agg.Msg)
+					violLines = append(violLines, fmt.Sprintf("VIOLATION property=%s replay=%s", chk.Property, path))
+					exit = 1
+					continue
+				}
 				if !(again[0][agg.Sub] && again[1][agg.Sub]) {
 					fmt.Fprintf(os.Stderr, "harness error: finding %s in %s/%s does not replay deterministically: %s; and its sub-check reported nothing unlisted in 2 re-runs of the whole check\n", agg.Class, chk.Property, agg.Sub, agg.Msg)
 					return 2
@@ -557,6 +581,26 @@ func Main(chk *Check, tier string, seed int64, replayPath string) int {
 	fmt.Printf("%s %s: evaluations=%d states=%d transitions=%d violations=%d known=%d exhaustive=%v wall=%.1fs\n",
 		chk.Property, tier, tot.Evals, tot.States, tot.Transitions, violations, knownHits, allExhaustive, time.Since(start).Seconds())
 	return exit
+}
+
+// freshProcessConfirms re-runs the finding's sub-check in two fresh processes (the check binary itself,
+// VERIF_CONFIRM=1) and tells whether the class was found in both.
+func freshProcessConfirms(prop, tier string, agg *classAgg) bool {
+	exe, err := os.Executable()
+	if err != nil {
+		return false
+	}
+	for i := 0; i < 2; i++ {
+		cmd := exec.Command(exe, prop, tier)
+		cmd.Env = append(os.Environ(), "VERIF_CONFIRM=1", "VERIF_SUB="+agg.Sub, "VERIF_OUT_DIR="+filepath.Join(os.TempDir(), fmt.Sprintf("verif-confirm-%d", os.Getpid())))
+		out, _ := cmd.Output()
+		if !strings.Contains(string(out), "CONFIRM sub="+agg.Sub+" class="+agg.Class+"\n") {
+			os.RemoveAll(filepath.Join(os.TempDir(), fmt.Sprintf("verif-confirm-%d", os.Getpid())))
+			return false
+		}
+	}
+	os.RemoveAll(filepath.Join(os.TempDir(), fmt.Sprintf("verif-confirm-%d", os.Getpid())))
+	return true
 }
 
 func writeEvidence(prop string, ev map[string]any) error {
